@@ -494,6 +494,9 @@ func libDecodeKV[K fixedKey, V any](c *boc.Cell, keyBits []bool, want []bool) st
 }
 
 func libDecode(kbits, vbits int, c *boc.Cell, keyBits, want []bool) string {
+	if k, ok := oddKinds[kbits]; ok && vbits == 32 && kbits%8 != 0 {
+		return k.decode(c, keyBits, want)
+	}
 	switch [2]int{kbits, vbits} {
 	case [2]int{8, 32}:
 		return libDecodeKV[tlb.Uint8, tlb.Uint32](c, keyBits, want)
@@ -787,6 +790,7 @@ func genC18(g *h.G) {
 			}
 		}
 	}
+	genC18More(g)
 	// random trees x random prune sets through the cursor API
 	n := g.Scale(500, 10000)
 	for i := 0; i < n; i++ {
